@@ -1,4 +1,4 @@
 Require Extraction.
 Require Import ExtrOcamlBasic.
-From GR Require Import Base.Bytes Model.Lz4Model.
-Extraction "lz4_model.ml" decompress lz4_ref.
+From GR Require Import Base.Bytes Model.Lz4Model Model.DecompModel.
+Extraction "lz4_model.ml" decompress lz4_ref table_open announced.
